@@ -818,7 +818,9 @@ def history_section(ctx, n=None):
             if i % 2 == 0:
                 try:
                     # (k % 4 == 3 drops the first d-table; the shared generator forgets it: at most 7 commits)
-                    h = H.make_history(sc.path(f"h{i}"), cfg, r, n_commits=r.randint(3, 7), kind="ddl")
+                    # every third of these establishes schema, schema format and encoding inside the WAL
+                    h = H.make_history(sc.path(f"h{i}"), cfg, r, n_commits=r.randint(3, 7),
+                                       kind="fresh_wal" if i % 6 == 0 else "ddl")
                 except sqlite3.Error as e:
                     ctx.notes.append(f"history generator error skipped: {e}")
                     continue
